@@ -27,7 +27,7 @@ PROP_MIN_THEOREMS = 53
 COMPOSE_MIN_THEOREMS = 11
 EXTRA_MODULES = [('MpVerif.C01.PropsCompose', 'MpVerif/C01/PropsCompose.lean', COMPOSE_MIN_THEOREMS),
                  ('MpVerif.C01.PropsCtxGen', 'MpVerif/C01/PropsCtxGen.lean', 11),
-                 ('MpVerif.C01.PropsGenTie', 'MpVerif/C01/PropsGenTie.lean', 22)]
+                 ('MpVerif.C01.PropsGenTie', 'MpVerif/C01/PropsGenTie.lean', 27)]
 
 # every type except cones / unary-encoding marker: natively accepted in run A
 BASE_ACCEPT = ['LinConRange', 'LinConLE', 'LinConEQ', 'LinConGE',
@@ -1155,7 +1155,8 @@ def run_gadgets(ck, n_cases=None, proof=True):
         res['translator_ok'] = rc == 0
         # round 4: clang-AST translation of mp::Context; PropagateResult overload table; digests of mirrored converter bodies
         for script, args in (('gen_context_ast.py', [REPO, os.path.join(LEAN, 'MpVerif', 'Gen', 'C01Context.lean'), os.path.join(BUILD, 'tr')]),
-                             ('gen_propdown.py', [REPO, os.path.join(LEAN, 'MpVerif', 'Gen')])):
+                             ('gen_propdown.py', [REPO, os.path.join(LEAN, 'MpVerif', 'Gen')]),
+                             ('gen_rangedec.py', [REPO, os.path.join(LEAN, 'MpVerif', 'Gen', 'C01Decisions.lean')])):
             rc2, o2, e2 = sh([sys.executable, os.path.join(VERIF, 'translators', script)] + args, timeout=300)
             ck.log((o2.strip() or e2.strip())[-300:])
             if rc2 != 0:
